@@ -64,7 +64,7 @@ def main() -> int:
     dist = {"generated": 0, "assignments": 0, "scenarios": 0, "clauses": {}}
     # ---- generated statements x metadata assignments ------------------------------------------------
     n = 70 if quick else 1200
-    stmts = [astgen.gen_stmt(r, r.choice([0, 1, 2])) for _ in range(n)]
+    stmts = astgen.gen_batch(r, n, (0, 1, 2), shapes=30 if quick else 300)
     plain = t2tie.summaries(sqltie.records(stmts))
     tables = ["s1.t1", "s1.t2", "s2.t3", "s2.t1", "db1.s4.t6", "s3.out1"]
     recs, meta = [], []
